@@ -303,6 +303,17 @@ def nodeStep (d : DState) (C : Crypto) (args : List String) : DState × String :
     (d, match C10Walk.walk C d.params n.mgr.coinstate fuel.toNat! (ids.map hx) with
       | .ok out => "ok " ++ String.intercalate "," (out.map short)
       | .error e => "err " ++ errKind e)
+  | "sync" :: st :: fuel :: now :: ids =>
+    -- the node's state is the server's; the requester is a fresh node over the named state with one greeted connection
+    (match now.toInt? with
+      | some t =>
+        let req := d.getState st
+        let rnode : Node := ⟨⟨req, [], some req⟩, [], [], [⟨true, false, true, true, [], false, []⟩], 0⟩
+        let out := C10Converge.syncRun C d.params n.mgr.coinstate 0 t fuel.toNat! rnode (ids.map hx)
+        (d, match out.mgr.coinstate.head with
+          | some hd => s!"ok head={short (hd.id C)} height={hd.height} stored={out.mgr.coinstate.blocks.length} buffered={out.wbuf.length}"
+          | none => "err nohead")
+      | none => (d, "bad-op"))
   | ["digest"] => (d, nodeDigest C n)
   | _ => (d, "bad-op")
 
